@@ -380,3 +380,16 @@ Example C10_source_release_examples :
   RevokeSentinel_receive 0 5 6 0 0 true true 0 60 7 = Ok ([(7, 5, ZnnTokenStandard); (7, 6, QsrTokenStandard)], 0, 60, 0, 0, Some 1) /\
   RevokePillar_receive 0 15 0 0 0 true 7 7 0 true 0 60 0 = Ok ([(7, PillarStakeAmount, ZnnTokenStandard)], 0, 60, 0, Some 1).
 Proof. exact release_examples. Qed.
+Theorem C10_source_cancel_liquidity_stake_payout : forall rt amt v u g f exp now sv owner zts bl rt' amt' eff,
+  CancelLiquidityStake_receive rt amt v u g f exp now sv owner zts = Ok (bl, 0, rt', amt', eff) ->
+  bl = [(owner, amt, zts)] /\ exp <= now /\ v = 0 /\ g = 0 /\ rt' = now /\ amt' = 0 /\ eff = Some 1.
+Proof. exact cancel_liquidity_stake_payout. Qed.
+Theorem C10_source_cancel_liquidity_stake_refusal : forall rt amt v u g f exp now sv owner zts bl e rt' amt' eff,
+  CancelLiquidityStake_receive rt amt v u g f exp now sv owner zts = Ok (bl, e, rt', amt', eff) -> e <> 0 ->
+  bl = [] /\ rt' = rt /\ amt' = amt /\ eff = None.
+Proof. exact cancel_liquidity_stake_refusal. Qed.
+Theorem C10_source_cancel_liquidity_stake_twice : forall rt amt v u g f exp now sv owner zts bl rt' amt' eff now2 sv2 bl2 e2 rt2 amt2 eff2,
+  CancelLiquidityStake_receive rt amt v u g f exp now sv owner zts = Ok (bl, 0, rt', amt', eff) ->
+  CancelLiquidityStake_receive rt' amt' v u g f exp now2 sv2 owner zts = Ok (bl2, e2, rt2, amt2, eff2) ->
+  bl2 = [] \/ bl2 = [(owner, 0, zts)].
+Proof. exact cancel_liquidity_stake_twice. Qed.
